@@ -147,9 +147,9 @@ def run_check(prop, tier, master, params=None, runs=None, verbose=True, evidence
     batch = Batch(prop, tier, master, params=params, verbose=verbose)
     if runs:
         batch.p["runs"] = runs
-    batch.say(f"check {prop} tier={tier} VERIF_SEED={master} runs={batch.p['runs']} tree={repo_path()} workers={batch.farm.workers}")
     batch.build_pool()
-    batch.make_specs()
+    batch.make_specs(batch.p["runs"])
+    batch.say(f"check {prop} tier={tier} VERIF_SEED={master} runs={batch.n_main}+{batch.n_runs - batch.n_main} race runs tree={repo_path()} workers={batch.farm.workers}")
     batch.collect_refs()
     batch.say(f"references: {len(batch.refs.by_key)} keys ({batch.refs.jobs_run} isolated jobs)")
     batch.execute()
